@@ -24,6 +24,8 @@ pub struct M {
     pub seq: u64,
     pub cfg: &'static str,
     pub events: u64,
+    pub slice: u64,
+    pub since_group: u64,
 }
 
 fn arg_json(a: &A) -> String {
@@ -81,12 +83,21 @@ pub fn out_json(o: &Out) -> String {
 
 impl M {
     pub fn new(out: Box<dyn Write>, cfg: &'static str) -> Self {
-        M { regs: [TwoFloat::from(0.0); NREGS], out, seq: 0, cfg, events: 0 }
+        M {
+            regs: [TwoFloat::from(0.0); NREGS],
+            out,
+            seq: 0,
+            cfg,
+            events: 0,
+            since_group: 0,
+            slice: std::env::var("VERIF_SLICE").ok().and_then(|s| s.parse().ok()).unwrap_or(0),
+        }
     }
 
     /// start a new group: the spec forgets its determinism memo
     pub fn group(&mut self, tag: &str) {
         self.seq += 1;
+        self.since_group = 0;
         writeln!(self.out, "{{\"op\":\"group\",\"fam\":\"ctl\",\"seq\":{},\"tag\":{}}}", self.seq, enc::jstr(tag)).unwrap();
     }
 
@@ -120,6 +131,7 @@ impl M {
         };
         self.seq += 1;
         self.events += 1;
+        self.since_group += 1;
         let a: Vec<String> = args.iter().map(arg_json).collect();
         writeln!(
             self.out,
@@ -148,6 +160,13 @@ impl M {
     pub fn load(&mut self, d: usize, hi: f64, lo: f64) -> bool {
         let sp = if self.seq % 2 == 0 { "tuple" } else { "array" };
         matches!(self.call("load", "try_from", sp, Some(d), &[A::F(hi), A::F(lo)]), Out::TF(_))
+    }
+
+    /// bound the size of the spec's determinism memo in generators that have no natural groups
+    pub fn group_every(&mut self, n: u64, tag: &str) {
+        if self.since_group >= n {
+            self.group(tag);
+        }
     }
 
     pub fn tf(&self, i: usize) -> TwoFloat {
